@@ -1,33 +1,47 @@
 """C03 bounded stand-in (NOT counted as proved): evaluation-mode outputs are history independent, real models, float64.
 
-For every model family below, EVERY sequence (history) of length 0 .. L (L = 3 quick / 4 thorough, thorough samples length 5)
-over the public state-changing operations is applied to one model object; then the NEXT evaluation-mode prediction
-(mean and dense covariance, under torch.no_grad) is taken under observation setting A and - on a second object that went
-through the same history - under observation setting B, and compared with
+A history (finite sequence of public state-changing operations) is applied to one freshly built model object; then the NEXT
+evaluation-mode prediction (mean and dense covariance, under torch.no_grad) is taken under an observation setting
+(A = default settings on 3 test points, B = settings.fast_pred_var(True) on 4 other test points) and compared with
 
   vs_fresh : a freshly constructed model of the same class, built on the CURRENT training data, that received the history
              model's state_dict() through load_state_dict (the literal statement of the property), and
   vs_dense : an INDEPENDENT dense float64 oracle written here (torch.linalg on dense matrices).  gpytorch is used by the oracle
              only to evaluate kernel(x1, x2).to_dense(), mean(x) and likelihood.noise on a third, fresh instance that
-             received the PARAMETERS only; the posterior algebra (Cholesky solves) is done here.
+             received the PARAMETERS only (no buffers); the posterior algebra (Cholesky solves) is done here.
 
-Operations (alphabet; 9 for exact GPs, 8 for variational GPs)
+Enumeration (per family; "both" = every history is run twice, once per observation setting; "alt" = one observation per
+history, A / B alternating with the parity of the sum of the operation indices; the exact plan is echoed in result["bound"]):
+  quick     exact_default, exact_sgpr, var_whitened: ALL histories of length 0..2 over the extended alphabet (both) and ALL
+            histories of length 3 over the core alphabet (alt); exact_ski_fixed, var_unwhitened: length 0..2 extended (both);
+            exact_ski_dynamic, exact_ski_dynamic_range: length 0..2 core (both).  (An interpolation-kernel history costs ~30 ms,
+            a default-kernel one ~10 ms: length 3 for all seven families does not fit into 90 s.)
+  thorough  exact_default: length 0..3 extended (both), length 4 core (alt), 200 sampled of length 5; exact_sgpr, var_whitened:
+            length 0..3 extended (both) + 200 sampled of length 4; exact_ski_fixed, exact_ski_dynamic, var_unwhitened: length 0..2
+            extended (both), length 3 core (both) + 200 sampled of length 4; exact_ski_dynamic_range: length 0..2 core (both),
+            length 3 core (alt).
+
+Operations.  Core alphabet (9 for exact GPs, 8 for variational GPs: no std)
   pA    eval-mode prediction, default settings, test set A (3 points)
   pB    eval-mode prediction, settings.fast_pred_var(True), test set B (4 points)
-  mode  train()/eval() switch (toggles the mode of model and likelihood)
-  step  one optimiser step (SGD, lr 0.05, zero_grad first) on -MLL / -ELBO taken in training mode (calls .train() first; the
-        model is left in training mode)
+  mode  train()/eval() switch (toggles the mode of the model and its likelihood)
+  step  one optimiser step (SGD, lr 0.05, zero_grad first) on -MLL / -ELBO taken in training mode (calls .train() first when
+        the model is in eval mode; the model is left in training mode, so step>step are two consecutive iterations of a
+        training loop).  The objective value of the step is compared with the one a fresh model holding the same state
+        computes in training mode (key step_loss/vs_fresh; gpytorch against gpytorch, no dense oracle)
   std   set_train_data(inputs, targets, strict=False) toggling between two data sets of the same shapes   [exact GPs only]
   lsd   load_state_dict of a state dict with other values (toggles between the 'other' and the initial state dict)
   fant  get_fantasy_model(2 new points) in eval mode; the documented "call the model first" RuntimeError is the expected
         answer when no prediction strategy exists.  The fantasy model itself is also predicted with (setting A) and compared
         with the dense oracle on the augmented data (exact GPs) / with the fantasy model of a fresh model (variational GPs)
   prior eval-mode call under settings.prior_mode(True) (variational: model(x, prior=True)); its output is compared with the
-        dense prior  N(mean(x), kernel(x, x))
+        dense prior  N(mean(x), kernel(x, x)) (the test block of one joint kernel evaluation on [train; test])
   bwd   eval-mode prediction with grad under settings.detach_test_caches(False) and fast_pred_var(True) (so that both the
-        mean cache and the covariance cache carry a graph) followed by (mean.sum() + variance.sum()).backward();
-        thorough adds bwdA = the same with fast_pred_var(False)
-All of pA, pB, fant, prior, bwd are evaluation-mode calls: they call .eval() first (a no-op when already in eval mode).
+        mean cache and the covariance cache carry a graph) followed by (mean.sum() + variance.sum()).backward()
+Extended alphabet = core + argument variants
+  stdX  set_train_data(inputs=..., strict=False) only;  stdY  set_train_data(targets=..., strict=False) only   [exact GPs only]
+  bwdA  like bwd with fast_pred_var(False)
+All of pA, pB, fant, prior, bwd, bwdA are evaluation-mode calls: they call .eval() first (a no-op when already in eval mode).
 Direct parameter edits in eval mode are excluded by the property and never made.
 
 Families (1-d inputs, n = 6 training points, m = 4 inducing points, batch shape ())
@@ -36,11 +50,12 @@ Families (1-d inputs, n = 6 training points, m = 4 inducing points, batch shape 
   exact_ski_dynamic    ScaleKernel(GridInterpolationKernel(RBF, grid_size 16, num_dims 1)) (data-determined grid); both training
                        sets have the same range [0, 1] and every test / fantasy point lies inside it, so "the" grid is
                        unambiguous: the one determined by the training inputs
-  exact_ski_dynamic_range  the same kernel, but test set B and the second training set reach outside [0, 1] (the data-determined
-                       grid is re-made by such a call).  The fresh model / dense oracle use the grid determined by (training
-                       inputs, test inputs of the call) - one joint kernel evaluation
+  exact_ski_dynamic_range  the same kernel, but test set B and the second training set reach outside [0, 1].  "The bounds of
+                       the grid will automatically be determined by data" is read as: by the inputs the prediction is about -
+                       the dense oracle makes ONE joint kernel evaluation on [train; test] with a fresh kernel (one grid for
+                       all blocks); vs_fresh needs no reading at all
   exact_sgpr           InducingPointKernel(ScaleKernel(RBF), 4 inducing points); get_fantasy_model is documented as unsupported
-                       (NotImplementedError) and is not in the alphabet
+                       (NotImplementedError, checked once) and is not in the alphabet
   var_whitened         VariationalStrategy + CholeskyVariationalDistribution, learned inducing locations, Gaussian likelihood
   var_unwhitened       UnwhitenedVariationalStrategy + CholeskyVariationalDistribution
 
@@ -50,16 +65,21 @@ covariance Q + diag(k - q) (documented settings.sgpr_diagonal_correction, defaul
 covariance the exact base kernel (standard SGPR / FITC predictive).  Variational (whitened): L = chol(Kzz + j I),
 A = L^-1 Kzx, mean = mu_x + A^T m, cov = Kxx + j I + A^T (S - I) A;  (unwhitened): B = (Kzz + j I)^-1 Kzx,
 mean = mu_x + B^T (m - mu_z), cov = Kxx - Kxz B + B^T S B, with j = strategy.jitter_val (the documented Cholesky jitter,
-1e-6 for float64 at the pinned version; it is part of the documented computation, so it is in the oracle and not in the tolerance).
+1e-6 for float64 at the pinned version; it is part of the computation, so it is in the oracle and not in the tolerance).
 
 Tolerance: |got - want| <= 1e-6 * (1 + |want|) everywhere (vs_fresh and vs_dense); no looser tolerance is used.
-An exception raised inside gpytorch by an operation of the history or by the observation is a violation; an exception without
-a gpytorch frame (e.g. autograd's "backward through the graph a second time") is a violation exactly when the same operation
-succeeds on a fresh model holding the same parameters and data (history-dependent failure), otherwise it is re-raised as a
-harness problem.
+An exception raised inside gpytorch by an operation of the history or by the observation is a violation (key
+<family>/op_raised/<history before the operation>/<operation>); an exception without a gpytorch frame (e.g. autograd's
+"backward through the graph a second time") is a violation exactly when the same operation succeeds on a fresh model holding the
+same parameters and data (history-dependent failure), otherwise it is re-raised as a harness problem.  The rest of such a
+history is not run.
+Keys: <family>/obs<A|B>/<history, '>'-separated, '-' = empty>/<vs_fresh|vs_dense>/<mean|covar>;
+      <family>/<prior_call/vs_dense | fantasy_model/vs_dense | fantasy_model/vs_fresh>/<history ending in that operation>/<mean|covar>;
+      <family>/step_loss/vs_fresh/<history ending in step>.
 Not covered: batch shapes other than (), multi-dimensional inputs, fast_pred_samples, skip_posterior_variances,
 observation_nan_policy (C16), multitask models, the numerical value of the variational fantasy model (OVC approximation with
-undocumented jitters - only compared with the fantasy model of a fresh model), CUDA.
+undocumented jitters - only compared with the fantasy model of a fresh model), load_state_dict(strict=False) of partial state
+dicts, CUDA.
 """
 from __future__ import annotations
 
@@ -80,8 +100,6 @@ def run(tier="quick", seed=0, only=None, max_len=None, verbose=False):
     torch.manual_seed(seed)
     rng = random.Random(seed)
     D = torch.double
-    old_dtype = torch.get_default_dtype()
-    torch.set_default_dtype(D)  # every model is constructed in float64 (restored before returning)
     S_ = gpytorch.settings
     ev, seen, violations, samples, skipped = 0, set(), [], [], []
     TOL = 1e-6
@@ -167,7 +185,6 @@ def run(tier="quick", seed=0, only=None, max_len=None, verbose=False):
         k = m.covar_module
         if isinstance(k, gpytorch.kernels.InducingPointKernel):
             return k.base_kernel.base_kernel, k.base_kernel
-        k = k  # ScaleKernel
         b = k.base_kernel
         if isinstance(b, gpytorch.kernels.GridInterpolationKernel):
             b = b.base_kernel
@@ -300,8 +317,10 @@ def run(tier="quick", seed=0, only=None, max_len=None, verbose=False):
         key = (fam.name, "prior", sd_hash(sd, fam.pnames), di)
         if key not in dense_cache:
             km = kernel_model(fam, sd, di)
-            with torch.no_grad():
-                dense_cache[key] = (km.mean_module(Xs), km.covar_module(Xs).to_dense())
+            X = fam.xy(di)[0]
+            with torch.no_grad():  # one joint kernel evaluation on [train; test] like dense_posterior (one grid for a data-determined grid)
+                K = km.covar_module(torch.cat([X, Xs])).to_dense()
+                dense_cache[key] = (km.mean_module(Xs), K[X.size(0):, X.size(0):])
         return dense_cache[key]
 
     def dense_variational(fam, sd, Xs):
@@ -369,7 +388,8 @@ def run(tier="quick", seed=0, only=None, max_len=None, verbose=False):
         elif op == "mode":
             M.train(not M.training)
         elif op == "step":
-            M.train()
+            if not M.training:  # like a training loop: train() once, then consecutive steps without a mode call in between
+                M.train()
             st.opt.zero_grad()
             X, y = fam.xy(st.di)
             if fam.kind == "exact":
@@ -377,6 +397,15 @@ def run(tier="quick", seed=0, only=None, max_len=None, verbose=False):
             else:
                 mll = gpytorch.mlls.VariationalELBO(M.likelihood, M, num_data=X.size(0))
             loss = -mll(M(X), y)
+            k_loss = f"{fam.name}/step_loss/vs_fresh/{prefix_key}"
+            if k_loss not in done_checks:  # the training-mode objective must not depend on the history either
+                done_checks.add(k_loss)
+                R = fresh_like(st)
+                R.train()
+                mll_r = type(mll)(R.likelihood, R) if fam.kind == "exact" else type(mll)(R.likelihood, R, num_data=X.size(0))
+                with torch.no_grad():
+                    want = -mll_r(R(X), y)
+                checks.append((k_loss, close(loss.detach(), want), cmp_detail(loss.detach(), want)))
             loss.backward()
             st.opt.step()
         elif op in ("std", "stdX", "stdY"):
@@ -450,7 +479,8 @@ def run(tier="quick", seed=0, only=None, max_len=None, verbose=False):
     def describe(fam, seq, which):
         return {
             "family": fam.name, "history": list(seq), "observation": which,
-            "observation_settings": "fast_pred_var(True), test set B" if which == "B" else "defaults, test set A",
+            "observation_settings": {"A": "defaults, test set A", "B": "fast_pred_var(True), test set B"}.get(
+                which, "n/a: the output / exception of the last operation of the history"),
             "train_sets": [[X.reshape(-1).tolist(), y.tolist()] for X, y in fam.data],
             "test_A": fam.XA.reshape(-1).tolist(), "test_B": fam.XB.reshape(-1).tolist(),
             "fantasy_points": [XF.reshape(-1).tolist(), yF.tolist()], "inducing_points": Z0.reshape(-1).tolist(),
@@ -510,16 +540,29 @@ def run(tier="quick", seed=0, only=None, max_len=None, verbose=False):
                 rec(f"{fam.name}/obs{which}/{tag}/{nm}/{q}", ok, cmp_detail(g, w), None if ok else describe(fam, seq, which))
 
     # ------------------------------------------------------------------ enumeration
-    # level 1: every history of length 0..L_ext over the EXTENDED alphabet (argument variants stdX / stdY / bwdA included), both
-    #          observation settings;  level 2: every history of length L_ext+1 .. L over the CORE alphabet; at the top length
-    #          of the quick tier one observation per history (A / B alternating with the parity of the operation indices)
-    if tier == "quick":
-        L_ext, L, both_top, n_samp = 2, 3, False, 0
-    else:
-        L_ext, L, both_top, n_samp = 3, 4, False, 150
-    if max_len is not None:
-        L_ext, L = min(L_ext, max_len), max_len
+    # A block = (alphabet, lengths, observation mode).  'both': every history is run twice, once per observation setting;
+    # 'alt': one observation setting per history, A / B alternating with the parity of the sum of the operation indices.
+    # ext = core + argument variants (stdX / stdY: set_train_data with inputs only / targets only; bwdA: backward without fast_pred_var)
+    def blocks(fam):
+        nm = fam.name
+        if max_len is not None:
+            return [("ext", range(0, max_len + 1), "both")]
+        if tier == "quick":
+            if nm in ("exact_default", "exact_sgpr", "var_whitened"):
+                return [("ext", range(0, 3), "both"), ("core", [3], "alt")]
+            if nm in ("exact_ski_dynamic", "exact_ski_dynamic_range"):
+                return [("core", range(0, 3), "both")]
+            return [("ext", range(0, 3), "both")]
+        if nm == "exact_default":
+            return [("ext", range(0, 4), "both"), ("core", [4], "alt"), ("sample-ext", 5, 200)]
+        if nm in ("exact_sgpr", "var_whitened"):
+            return [("ext", range(0, 4), "both"), ("sample-ext", 4, 200)]
+        if nm == "exact_ski_dynamic_range":
+            return [("core", range(0, 3), "both"), ("core", [3], "alt")]
+        return [("ext", range(0, 3), "both"), ("core", [3], "both"), ("sample-ext", 4, 200)]
+
     n_hist = 0
+    bound_parts = []
     for fam in fams:
         if fam.sub == "sgpr":  # documented limitation: SGPR has no fantasy support
             m = fam.new(0)
@@ -530,39 +573,46 @@ def run(tier="quick", seed=0, only=None, max_len=None, verbose=False):
             except NotImplementedError:
                 skipped.append("exact_sgpr/fant: get_fantasy_model raises the documented NotImplementedError (no fantasy support "
                                "for SGPR); the operation is not in this family's alphabet")
-        plan = []
-        for length in range(0, L_ext + 1):
-            for seq in itertools.product(fam.ext, repeat=length):
-                plan.append((seq, "A"))
-                plan.append((seq, "B"))
-        top = L if not (tier == "quick" and fam.name == "exact_ski_dynamic_range") else L_ext
-        for length in range(L_ext + 1, top + 1):
-            for seq in itertools.product(fam.core, repeat=length):
-                if both_top or length < L:
-                    plan.append((seq, "A"))
-                    plan.append((seq, "B"))
-                else:
-                    plan.append((seq, "AB"[sum(fam.core.index(o) for o in seq) % 2]))
-        for _ in range(n_samp):
-            seq = tuple(rng.choice(fam.ext) for _ in range(L + 1))
-            plan.append((seq, "A"))
-            plan.append((seq, "B"))
+        plan, planned, desc = [], set(), []
+
+        def add(seq, which):
+            if (seq, which) not in planned:
+                planned.add((seq, which))
+                plan.append((seq, which))
+
+        for blk in blocks(fam):
+            if blk[0] == "sample-ext":
+                _, length, count = blk
+                for _ in range(count):
+                    seq = tuple(rng.choice(fam.ext) for _ in range(length))
+                    add(seq, "AB"[sum(fam.ext.index(o) for o in seq) % 2])
+                desc.append(f"{count} sampled histories of length {length} over the extended alphabet (one observation each)")
+                continue
+            alph_name, lengths, mode = blk
+            alph = fam.ext if alph_name == "ext" else fam.core
+            for length in lengths:
+                for seq in itertools.product(alph, repeat=length):
+                    if mode == "both":
+                        add(seq, "A")
+                        add(seq, "B")
+                    else:
+                        add(seq, "AB"[sum(alph.index(o) for o in seq) % 2])
+            desc.append(f"all histories of length {min(lengths)}..{max(lengths)} over the {'extended' if alph_name == 'ext' else 'core'} alphabet "
+                        f"({len(alph)} operations), " + ("both observation settings" if mode == "both" else "one observation setting (A / B alternating)"))
         for seq, which in plan:
             run_history(fam, seq, which)
             n_hist += 1
+        bound_parts.append(f"{fam.name}: " + " + ".join(desc))
         if verbose:
             print(fam.name, "done", round(time.time() - t0, 1), "s", ev, "evaluations", len(violations), "violations", flush=True)
-    if tier == "quick" and any(f.name == "exact_ski_dynamic_range" for f in fams):
-        skipped.append(f"exact_ski_dynamic_range: histories of length {L} only in the thorough tier (time budget)")
+    if tier == "quick" and max_len is None:
+        skipped.append("quick tier (time budget): histories of length 3 only for exact_default, exact_sgpr, var_whitened; the interpolation "
+                       "families and var_unwhitened go to length 2 (length 3 / 4 and sampled longer ones in the thorough tier)")
 
-    torch.set_default_dtype(old_dtype)
     return {"name": "C03 histories vs fresh model / dense oracle", "evaluations": ev, "distinct_nontrivial": len(seen),
-            "bound": f"per family: all histories of length 0..{L_ext} over the extended alphabet ({len(EX_EXT)} operations exact / "
-                     f"{len(VAR_EXT)} variational) with both observation settings, all histories of length {L_ext + 1}..{L} over the core "
-                     f"alphabet ({len(EX_CORE)} / {len(VAR_CORE)}) with " + ("both observation settings" if both_top else
-                     "one observation setting at the top length (alternating A / B)")
-                     + (f", {n_samp} sampled histories of length {L + 1}" if n_samp else "")
-                     + f"; {len(fams)} model families; observation A = defaults on 3 test points, B = fast_pred_var on 4 test points; "
+            "bound": "; ".join(bound_parts)
+                     + f". Core alphabet {EX_CORE} (variational: without std), extended = core + ['stdX', 'stdY', 'bwdA'] (variational: + ['bwdA']); "
+                       "observation A = defaults on 3 test points, B = fast_pred_var on 4 test points; "
                        f"n = {n} training points, 4 inducing points, 2 fantasy points, 1-d inputs, batch shape (), float64; {n_hist} histories run",
             "rule": "a case = (family, observation setting, history, reference in {fresh model, dense oracle}, quantity in {mean, covar}) "
                     "plus per-operation outputs (prior call, fantasy model, raised exception) keyed by the history prefix; distinct by that key",
